@@ -19,9 +19,11 @@ bvars == <<W, bst, ptr, stack, cum, pc>>
 S == SumSeq(W)
 K == Len(W) - 1
 
-Init == /\ W \in Vectors
-        /\ bst = [j \in 1..(2 * Len(W) - 1) |-> IF j <= Len(W) - 1 THEN 0 ELSE W[j - (Len(W) - 1)]]
+InitFor(w) ==
+        /\ W = w
+        /\ bst = [j \in 1..(2 * Len(w) - 1) |-> IF j <= Len(w) - 1 THEN 0 ELSE w[j - (Len(w) - 1)]]
         /\ ptr = 1 /\ stack = <<>> /\ cum = 0 /\ pc = "build"
+Init == \E w \in Vectors : InitFor(w)
 
 Step ==
     /\ pc = "build"
